@@ -536,6 +536,22 @@ impl<T: Qcow2IoOps> Qcow2Dev<T> {
         let _flush_lock = self.flush_lock.lock().await;
 
         log::debug!("flush_meta: entry");
+
+        // Clear the flag first: whatever gets dirty from now on sets it
+        // again, also if this flush no longer picks it up. Clearing it at
+        // the end would hide such updates from need_flush_meta().
+        self.mark_need_flush(false);
+
+        let res = self.__flush_meta().await;
+        if res.is_err() {
+            // something dirty is left behind
+            self.mark_need_flush(true);
+        }
+        log::debug!("flush_meta: exit");
+        res
+    }
+
+    async fn __flush_meta(&self) -> Qcow2Result<()> {
         loop {
             // refcount is usually small size & continuous, so simply
             // flush all
@@ -555,11 +571,9 @@ impl<T: Qcow2IoOps> Qcow2Dev<T> {
                 )
                 .await?;
             if done {
-                self.mark_need_flush(false);
                 break;
             }
         }
-        log::debug!("flush_meta: exit");
         Ok(())
     }
 }
